@@ -24,7 +24,7 @@ def validate_decoded(obj):
       "(accepted classes: int, gfapy.Placeholder)")
 
 def validate_encoded(string):
-  if not re.match(r"^(\*|[-+]?[0-9]+)$", string):
+  if not re.match(r"^(\*|[-+]?[0-9]+)\Z", string):
     raise gfapy.FormatError(
       "{} does not represent a valid optional integer value\n"
       .format(repr(string))+
